@@ -114,6 +114,11 @@ impl<const TOTAL_NUM_BITS: u32, const NUM_INDEX_BITS: u32>
         )
     }
 
+    /// fields `verif_state` does not show: `(rollover_mask, last_accumulator, rolled_over)`
+    pub fn verif_raw(&self) -> (u32, u32, bool) {
+        (self.rollover_mask, self.last_accumulator, self.rolled_over)
+    }
+
     /// place the accumulator at any position without ticking there
     pub fn verif_set_accumulator(&mut self, acc: u32) {
         self.accumulator = acc & self.rollover_mask;
